@@ -34,6 +34,8 @@ var c03ServerPeers = []c03Peer{
 	{"no-common-cipher", peerDev{NoCipher: true}},
 	{"select-unoffered", peerDev{AuthAnswer: "YES", Select: "unoffered"}},
 	{"select-several", peerDev{AuthAnswer: "YES", Select: "several"}},
+	{"select-all-offered", peerDev{AuthAnswer: "YES", Select: "all-offered"}},
+	{"select-all-offered-then-proceed", peerDev{AuthAnswer: "YES", Select: "all-offered-then-proceed"}},
 	{"select-zero", peerDev{AuthAnswer: "YES", Select: "zero"}},
 	{"denied-after-auth", peerDev{Denied: true}},
 	{"postauth-in-clear", peerDev{PostAuthClear: true}},
@@ -178,7 +180,7 @@ func c03One(res *vlib.Result, role string, auth, enc, integ security.SecurityLev
 func C03Plan() *vlib.Plan {
 	p := &vlib.Plan{
 		Property: "C03", Level: "model_checking",
-		Rule:   "E-ENUM: real endpoint E in both roles x own policy 4x4 (authentication x encryption; thorough adds Integrity REQUIRED) x method lists (every non-empty ordered subset of {CLAIMTOBE, TOKEN}) x scripted-peer catalogue (honest; answers NO/YES against the table; ECDH key omitted/truncated/random/not base64; no common cipher; selects an unoffered / several / zero method bits; DENIED after authentication; post-auth ad in clear; client role: bitmask outside its list, bitmask skipped, claimed levels). Oracle from the scripted peer's log + E's stream state + E's next bytes (canary). Server role with a per-command policy (server.Server): default 4x4 x strict command 4x4 (x Integrity) x 4 client kinds x {fresh, keep-alive follow-on, resumption of the lax session naming the strict command}; every handler invocation of the strict command is judged against its REQUIRED levels. state = (role, policy cell, peer, outcome class); transitions = handshakes.",
+		Rule:   "E-ENUM: real endpoint E in both roles x own policy 4x4 (authentication x encryption; thorough adds Integrity REQUIRED) x method lists (every non-empty ordered subset of {CLAIMTOBE, TOKEN}) x scripted-peer catalogue (honest; answers NO/YES against the table; ECDH key omitted/truncated/random/not base64; no common cipher; selects an unoffered / several / all offered (and then carries on as if authentication were over) / zero method bits; DENIED after authentication; post-auth ad in clear; client role: bitmask outside its list, bitmask skipped, claimed levels). Oracle from the scripted peer's log + E's stream state + E's next bytes (canary). Server role with a per-command policy (server.Server): default 4x4 x strict command 4x4 (x Integrity) x 4 client kinds x {fresh, keep-alive follow-on, resumption of the lax session naming the strict command}; every handler invocation of the strict command is judged against its REQUIRED levels. state = (role, policy cell, peer, outcome class); transitions = handshakes.",
 		Assume: []string{"scripted peer speaks CLAIMTOBE only; TOKEN-only lists meet it through the deviation cases", "SSL/KERBEROS/SCITOKENS/FS excluded (cannot complete offline / need a mount namespace)"},
 	}
 	p.Gen = func(tier string, yield func(vlib.Case)) {
